@@ -1167,13 +1167,14 @@ sf_command	(SNDFILE *sndfile, int command, void *data, int datasize)
 			if (data == NULL || datasize != sizeof (double))
 				return (psf->error = SFE_BAD_COMMAND_PARAM) ;
 			*((double*) data) = psf_calc_signal_max (psf, SF_FALSE) ;
-			break ;
+			/* A refusal (handle that cannot be read or cannot seek) is reported in psf->error only. */
+			return psf->error ;
 
 		case SFC_CALC_NORM_SIGNAL_MAX :
 			if (data == NULL || datasize != sizeof (double))
 				return (psf->error = SFE_BAD_COMMAND_PARAM) ;
 			*((double*) data) = psf_calc_signal_max (psf, SF_TRUE) ;
-			break ;
+			return psf->error ;
 
 		case SFC_CALC_MAX_ALL_CHANNELS :
 			if (data == NULL || datasize != SIGNED_SIZEOF (double) * psf->sf.channels)
